@@ -748,6 +748,62 @@ func c12Builder(env *fw.Env, idx int, pairs bool) fw.Result {
 			return viol("failed-build-directory-opens", "faults %v: the target directory of the failed build opens as a bundle", fc.faults)
 		}
 	}
+	// ---- what other finders say while a build fails, and builds without a tracer
+	// Every finder run raises a warning (with a file name) in these builds;
+	// each of them has to come back from some Add call, with its file name
+	// rewritten, whether it was raised before or after the failure, and
+	// whether or not the caller listens to trace events (every other case
+	// runs without a tracer).
+	for k, fc := range fcases {
+		if len(fc.faults) != 1 {
+			continue
+		}
+		noTracer := k%2 == 1
+		br := runBuild(&w, dir, buildOpts{Faults: fc.faults, Limit: 4*n + 20, WarnEveryFind: true, NoTracer: noTracer})
+		res.Evals++
+		res.Obs["fault_runs_with_a_warning_from_every_finder"]++
+		if br.NewErr != nil || br.be.aborted {
+			continue
+		}
+		be := br.be
+		isFaulted := map[int]bool{}
+		for _, o := range be.faulted {
+			isFaulted[o] = true
+		}
+		for ord := 1; ord <= len(be.kinds); ord++ {
+			if be.kinds[ord-1] != "find" || isFaulted[ord] {
+				continue
+			}
+			sum := fmt.Sprintf("injected finder warning #%d", ord)
+			var hit sourcebundle.Diagnostic
+			for _, a := range br.Adds {
+				for _, d := range a.Diags {
+					if d.Severity() == sourcebundle.DiagWarning && d.Description().Summary == sum {
+						hit = d
+					}
+				}
+			}
+			if hit == nil {
+				return viol("diagnostic-lost", "fault %v (tracer: %v): the finder run at callback %d raised the warning %q, which no Add call returned", fc.faults, !noTracer, ord, sum)
+			}
+			subj := hit.Source().Subject
+			if subj == nil {
+				return viol("diagnostic-source-lost", "fault %v (tracer: %v): the subject range of warning %q is gone", fc.faults, !noTracer, sum)
+			}
+			fsrc, err := sourceaddrs.ParseRemoteSource(subj.Filename)
+			okPkg := false
+			if err == nil {
+				for _, p := range be.pkgs {
+					if fsrc.Package() == p {
+						okPkg = true
+					}
+				}
+			}
+			if err != nil || !okPkg || !strings.HasSuffix(fsrc.SubPath(), "main.tf") {
+				return viol("diagnostic-filename-not-rewritten", "fault %v (tracer: %v): subject file name %q of warning %q does not name main.tf inside a package of the world", fc.faults, !noTracer, subj.Filename, sum)
+			}
+		}
+	}
 	return res
 }
 
